@@ -458,13 +458,22 @@ def _livepatch__class(oldclass, newclass, modname, cache, visit_stack):
     # __slots__ or not.  The class type itself will always use a __dict__.
     if olddict.get("__slots__") != newdict.get("__slots__"):
         return newclass
-    oldnames = set(olddict)
-    newnames = set(newdict)
+    if oldclass.__bases__ != newclass.__bases__:
+        # Python refuses some re-parentings (e.g. away from ``object``); in
+        # that case the class can't be livepatched.
+        try:
+            oldclass.__bases__ = newclass.__bases__
+        except TypeError:
+            return newclass
+    # ``__dict__`` and ``__weakref__`` are per-class descriptors created by
+    # Python itself (present or not depending on the bases); never copy them.
+    unpatchable = {"__dict__", "__weakref__"}
+    oldnames = set(olddict) - unpatchable
+    newnames = set(newdict) - unpatchable
     for name in oldnames - newnames:
         delattr(oldclass, name)
     for name in newnames - oldnames:
         setattr(oldclass, name, newdict[name])
-    oldclass.__bases__ = newclass.__bases__
     names = oldnames & newnames
     names.difference_update(olddict.get("__slots__", []))
     names.discard("__slots__")
